@@ -39,7 +39,9 @@ theorem reorderTree_off (cfg : PConfig) (h : cfg.reorder = false) : ∀ t : ANod
   | .leaf _ _ _ => rfl
   | .inner k cs a => by
     simp only [reorderTree, h, Bool.and_false, Bool.false_and]
-    rw [reorderTreeL_off cfg h cs]
+    split
+    · rfl
+    · rw [reorderTreeL_off cfg h cs]
 theorem reorderTreeL_off (cfg : PConfig) (h : cfg.reorder = false) : ∀ ts : List ANode, reorderTreeL cfg false ts = ts
   | [] => rfl
   | c :: cs => by
